@@ -420,6 +420,17 @@ func c13Run(c c13Case) Verdict {
 		if !strings.Contains(text, "<"+acc[i]+"> ") {
 			return failf("recipient-name", "final reply %d (%s) does not name recipient %d <%s>", i, rs[i], i, acc[i])
 		}
+		// ... and nobody else, and not more often than it has lines (no
+		// scripted text contains an address)
+		for _, other := range []string{"a@x", "b@x", "A@x"} {
+			k := strings.Count(text, "<"+other+"> ")
+			if other != acc[i] && k > 0 {
+				return failf("recipient-name", "final reply %d (%s) is for recipient %d <%s> but also names <%s>", i, rs[i], i, acc[i], other)
+			}
+			if other == acc[i] && k > len(rs[i].Lines) {
+				return failf("recipient-name", "final reply %d (%s) names its recipient <%s> %d times in %d line(s)", i, rs[i], acc[i], k, len(rs[i].Lines))
+			}
+		}
 		if !c.PerRcpt {
 			// plain backend: every recipient gets the single result
 			want := 250
